@@ -772,7 +772,12 @@ type c19Expect struct {
 	packets int
 }
 
-func c19Property(rt *rapid.T, c *vlib.Case, ops []c19Op) {
+// c19T is what the oracle needs from its runner (rapid.T or the fixed runner).
+type c19T interface {
+	Fatalf(format string, args ...any)
+}
+
+func c19Property(rt c19T, c *vlib.Case, ops []c19Op) {
 	// wall-clock readings below only feed cost counters of the evidence file, never a verdict
 	t0 := time.Now()
 	sb := c19NewSandbox()
@@ -995,9 +1000,8 @@ func c19Property(rt *rapid.T, c *vlib.Case, ops []c19Op) {
 					rt.Fatalf("%s: status %d but ImportJobCount changed by %d", what, r.Status, delta)
 				}
 				c.LabelIf(dup, "up:duplicate-refused")
-				if !dup && c19PlainRe.MatchString(target) && op.Mode != "abort" {
-					rt.Fatalf("%s: upload of a new plain name was refused with status %d: %q", what, r.Status, c19Trunc(r.Body))
-				}
+				// not a claim of the property, but a vacuity guard worth seeing in the evidence (expected: never)
+				c.LabelIf(!dup && c19PlainRe.MatchString(target), "up:new-plain-name-refused")
 			}
 			sb.jobs = st.ImportJobCount
 			sb.tree = after
@@ -1108,7 +1112,7 @@ func c19Property(rt *rapid.T, c *vlib.Case, ops []c19Op) {
 
 // c19Settle releases the import wedge, waits until the manager is idle and
 // compares what it imported with the successful uploads.
-func c19Settle(rt *rapid.T, c *vlib.Case, sb *c19Sandbox, snap func() c19Tree, imported []c19Expect, successes int) {
+func c19Settle(rt c19T, c *vlib.Case, sb *c19Sandbox, snap func() c19Tree, imported []c19Expect, successes int) {
 	tSettle := time.Now()
 	defer func() { c.Count("us_settle", int(time.Since(tSettle).Microseconds())) }()
 	before := sb.tree
@@ -1117,7 +1121,8 @@ func c19Settle(rt *rapid.T, c *vlib.Case, sb *c19Sandbox, snap func() c19Tree, i
 	}
 	st, ok := sb.waitIdle()
 	if !ok {
-		rt.Fatalf("manager did not become idle within 60s after the uploads: %+v", st)
+		// liveness of the manager is C09's claim; this check cannot decide anything without it
+		c19Harness(fmt.Sprintf("manager did not become idle within 60s after the uploads: %+v", st))
 	}
 	sb.jobs = 0
 	after := snap()
@@ -1189,5 +1194,82 @@ func TestVerifC19(t *testing.T) {
 		c.Render(func() any { return ops })
 		c.Trace(t)
 		c19Property(rt, c, ops)
+	})
+}
+
+// ---------------------------------------------------------------------------
+// fixed request lists: textbook spellings of the attack, independent of the seed
+
+type c19FixedT struct{}
+
+type c19FixedFailure string
+
+func (c19FixedT) Fatalf(format string, args ...any) { panic(c19FixedFailure(fmt.Sprintf(format, args...))) }
+
+func c19FixedOps(name string) []c19Op {
+	body := func(n int, tag string) []byte { return c19Pcap(n, []byte(tag)) }
+	up := func(target string, b []byte, packets int, mode string) c19Op {
+		return c19Op{Kind: "up", Method: "POST", Target: target, Mode: mode, BodyKind: "pcap", Body: b, BodyLen: len(b), Packets: packets}
+	}
+	down := func(target string) c19Op { return c19Op{Kind: "down", Method: "GET", Target: target} }
+	switch name {
+	case "C19-explicit-traversal":
+		var ops []c19Op
+		for _, tail := range []string{
+			"../x.pcap", "../../x.pcap", "../index/x.pcap", "../state/secret.pcap", "..%2fx.pcap", "..%2Fstate%2Fx.pcap",
+			"%2e%2e/x.pcap", "%2e%2e%2fx.pcap", "%252e%252e%252fx.pcap", "..\\x.pcap", "..%5cx.pcap", "..%00/x.pcap",
+			"/etc/x.pcap", "{ROOT}/x.pcap", "/{ROOT}/l0/x.pcap", "sub/x.pcap", "dir.pcap/x.pcap", "./x.pcap", "x.pcap/", "x.pcap/..",
+			"x.pcap%00.txt", "x.pcap%2f..%2f..%2fsecret.pcap", "\xc0\xae\xc0\xae/x.pcap", "..;/x.pcap", "....//x.pcap",
+		} {
+			ops = append(ops, up("/upload/"+tail, body(1, tail), 1, "plain"))
+			ops = append(ops, down("/api/download/pcap/"+tail))
+		}
+		for _, tail := range []string{"../secret.pcap", "../canary.txt", "..%2fsecret.pcap", "%2e%2e/secret.pcap", "../state/secret.pcap",
+			"../../../../secret.pcap", "sub/inner.pcap", "dir.pcap/inner.pcap", "dir.pcap", "old.pcap", "old.pcapng", "{ROOT}/secret.pcap"} {
+			ops = append(ops, down("/api/download/pcap/"+tail))
+		}
+		for _, target := range []string{"/upload/../api/download/pcap/../secret.pcap", "http://c19.test/upload/../x.pcap", "//upload/../x.pcap", "/upload"} {
+			ops = append(ops, up(target, body(1, target), 1, "plain"))
+		}
+		return ops
+	case "C19-explicit-duplicates-and-pairs":
+		b1, b2, b3 := body(1, "first"), body(2, "second"), body(3, "third")
+		return []c19Op{
+			up("/upload/a.pcap", b1, 1, "plain"),
+			up("/upload/a.pcap", b2, 2, "plain"), // refused
+			up("/upload/a.pcap", b3, 3, "slow"),  // refused
+			up("/upload/old.pcap", b2, 2, "chunked"),
+			up("/upload/dir.pcap", b2, 2, "plain"),
+			up("/upload/b.pcapng", b3, 3, "abort"),
+			up("/upload/b.pcapng", b3, 3, "chunked"),
+			down("/api/download/pcap/a.pcap"),
+			down("/api/download/pcap/b.pcapng"),
+			{Kind: "pair", Method: "POST", Target: "/upload/c.pcap", Mode: "pair", BodyKind: "pcap", Body: b1, Body2: b2, BodyLen: len(b1), Body2Len: len(b2), Packets: 1, Packets2: 2},
+			{Kind: "pair", Method: "POST", Target: "/upload/c.pcap", Mode: "pair", BodyKind: "pcap", Body: b3, Body2: b2, BodyLen: len(b3), Body2Len: len(b2), Packets: 3, Packets2: 2},
+			{Kind: "pair", Method: "POST", Target: "/upload/%C3%A9.pcap", Mode: "pair", BodyKind: "pcap", Body: b3, Body2: b2, BodyLen: len(b3), Body2Len: len(b2), Packets: 3, Packets2: 2},
+			up("/upload/\xc3\xa9.pcap", b1, 1, "plain"), // same stored name as the pair above: refused
+			down("/api/download/pcap/c.pcap"),
+			{Kind: "down", Method: "GET", Target: "/api/download/0.pcap", Post: true},
+			{Kind: "down", Method: "GET", Target: "/api/download/pcap/c.pcap", Post: true},
+			{Kind: "down", Method: "GET", Target: "/api/download/pcap/../state/secret.pcap", Post: true},
+		}
+	}
+	return nil
+}
+
+func TestVerifC19Fixed(t *testing.T) {
+	vlib.Fixed(t, "C19", []string{"C19-explicit-traversal", "C19-explicit-duplicates-and-pairs"}, func(name string) (msg string, rendering any) {
+		ops := c19FixedOps(name)
+		defer func() {
+			if r := recover(); r != nil {
+				f, ok := r.(c19FixedFailure)
+				if !ok {
+					panic(r)
+				}
+				msg, rendering = string(f), ops
+			}
+		}()
+		c19Property(c19FixedT{}, &vlib.Case{}, ops)
+		return "", nil
 	})
 }
